@@ -87,6 +87,8 @@ def run(tier, replay):
                     hs.append(json.loads(json.loads(line))["hist"])
             uniq = {json.dumps(h): h for h in hs}
             for h in uniq.values():
+                if any(e["kill"] < 0 for e in h):
+                    continue    # a failing write at an exact step cannot be forced from outside; see the file-size-limit cases below
                 cr = []
                 for e in h:
                     rr = dict(runs[e["run"] - 1])
@@ -105,6 +107,12 @@ def run(tier, replay):
                     seen[lab] = seen.get(lab, 0) + 1
                     cr = [dict(x, kill="") for x in runs[:ri]] + [dict(rr, kill="%s#%d" % (lab, seen[lab]))] + [dict(x, kill="") for x in runs[ri:]]
                     cases.append({"id": 0, "runs": cr, "shape": shape, "enumerated": True})
+        # a write that fails (file size limit) instead of a kill: a larger final result after a complete one, and a large interim one
+        for lim in (150, 400, 700):
+            cases.append({"id": 0, "shape": "WriteError", "runs": [{"append": False, "final": True, "rows": 3, "kill": ""},
+                                                                   {"append": False, "final": True, "rows": 150, "kill": "fsize:%d" % lim},
+                                                                   {"append": False, "final": False, "rows": 150, "kill": "fsize:%d" % lim},
+                                                                   {"append": False, "final": True, "rows": 2, "kill": ""}]})
         for i, c in enumerate(cases):
             c["id"] = i + 1
         cj, oj = os.path.join(wd, "cases.json"), os.path.join(wd, "out.json")
